@@ -52,7 +52,8 @@ THE SUBSET.
               `div_euclid/rem_euclid`, `abs`, `debug_assert!/assert!(…)`, `debug_assert_eq!/…_ne!`,
               `panic!/unreachable!`; `Result<T, E>` values (see RESULT); the std type `core::time::Duration` (see
               BUILT-IN STD ITEMS).
-  refused     everything else, in particular: functions with type parameters of their own (`fn f<T>`), generic
+  refused     everything else, in particular: functions with type parameters of their own (`fn f<T>`) other than free
+              functions instantiated by a call (see GENERIC FREE FUNCTIONS), generic
               enums (`LocalResult<T>`), closures, loops, `&mut` borrows and `&mut` parameters other than the receiver,
               floats, chars / strings as values, slices, iterators, trait objects, struct patterns, match
               guards, wrapping_/overflowing_/saturating_ methods, functions without a result (other than
@@ -73,6 +74,19 @@ BUILT-IN STD ITEMS.  `core::time::Duration` — only in a file with a top-level 
 (std's text: nanoseconds of a second or more are carried into the seconds with `checked_add(…).expect(…)`, i.e. a
 panic when the carry leaves `u64`), `as_secs`, `subsec_nanos` are written into Gen.lean from the table BUILTIN_FNS of
 this file (trusted text, like GenRt.lean); every other function of the type is refused.
+
+GENERIC FREE FUNCTIONS, OPERATORS ON STRUCTS, `cmp`, `ok_or`.  A call `f(args)` of a free function with type parameters
+of its own (`fn duration_round<T>(naive: NaiveDateTime, original: T, duration: TimeDelta)`) is read at the
+instantiation the call fixes: every type parameter must be the declared type of an argument (`original: T`) and is
+bound to the (named) type of that argument; the body is translated afresh for it (`round.duration_round_NaiveDateTime`,
+`round.duration_round_DateTime_FixedOffset`); its bounds / `where` clause are not evaluated (rustc has checked them
+for that call); such a function cannot be a target by itself.  `a + b` / `a - b` with `a` of a struct type is the
+`add` / `sub` of the one `impl Add<type of b> for type of a` (also of a generic impl read at the instantiation);
+none or several: refused.  `x.cmp(&y)` on integers is `core::cmp::Ordering` (built in like `Duration`, needs the
+`use core::cmp::Ordering;`; discriminants `Less = -1, Equal = 0, Greater = 1`), matched like any field-less enum.
+`opt.ok_or(e)` is `GenRt.Result.okOr opt e` (`e` evaluated eagerly, as in Rust).  `Self::Err` inside
+`impl Trait for T` is the `type Err = …;` of that very impl (two impls of different traits may each define one), inside
+`impl<Tz> Trait for DateTime<Tz>` read at an instantiation that of the one impl of the trait covering it.
 
 IMPLS OF ONE TRAIT WITH DIFFERENT ARGUMENTS (`impl Add<TimeDelta> for NaiveTime`, `impl Add<Duration> for NaiveTime`,
 `impl Add<FixedOffset> for NaiveTime`; `impl<Tz: TimeZone> Add<Duration> for DateTime<Tz>`).  The items keep the
@@ -871,6 +885,8 @@ class FnItem:
         self.tsubst = {}       # type parameter of the enclosing generic impl -> the concrete type it is read at
         self.gimpl = None      # header of the enclosing generic impl (see Crate.impl_header)
         self.targs = ()        # type arguments of the trait of `impl Trait<args> for Type` (`Add<Duration>`)
+        self.gparams = []      # names of the function's own type parameters (`fn f<T>`)
+        self.ginst = None      # for an instantiation of a generic function: the Lean name suffix (`NaiveDateTime`)
 
     def rust_path(self):
         o = self.owner or ""
@@ -927,7 +943,15 @@ class FnItem:
                 raise Refuse("`&mut self` receiver")
             return (params, has_self, ret)
         if p.at("where"):
-            raise Refuse("where clause")
+            if self.ginst is None:
+                raise Refuse("where clause")
+            while not (p.at("{") or p.peek().k == "eof"):      # bounds of an instantiated generic function: rustc
+                if p.at("<"):                                  # has checked them for the call that names it
+                    p.skip_generics()
+                elif p.at("(") or p.at("["):
+                    p.skip_balanced()
+                else:
+                    p.i += 1
         if not p.at("{"):
             raise Refuse("function without a body")
         body = p.parse_block()
@@ -967,6 +991,8 @@ DUR = ("adt", "Duration")
 #       Duration { secs, nanos: nanos % NANOS_PER_SEC } }
 BUILTIN_ADTS = {
     "Duration": dict(kind="struct", fields=[("secs", U64), ("nanos", U32)], mod="core_time", builtin=True),
+    # `core::cmp::Ordering { Less = -1, Equal = 0, Greater = 1 }` (its declared discriminants)
+    "Ordering": dict(kind="enum", variants=[("Less", -1), ("Equal", 0), ("Greater", 1)], mod="core_cmp", builtin=True),
 }
 BUILTIN_FNS = {
     ("Duration", "new"): dict(
@@ -1011,7 +1037,9 @@ class Crate:
         self.impls = []     # (trait, type) of every non-generic `impl Trait for Type`
         self.traits = set() # names of the traits declared in the translated files
         self.decls = {}     # (trait, fn name) -> [FnItem] of the bodiless method declarations of a trait
-        self.std_duration = set()   # modules with a top-level `use core::time::Duration;` (or `std::time::Duration`)
+        self.std_duration = set()   # (module, Name) for a top-level `use core::time::Duration;` / `use core::cmp::Ordering;`
+        self.assoc3 = {}            # (impl type, trait, associated type name) -> type
+        self.assoc_g = {}           # (base of a generic impl, trait, associated type name) -> [(impl header, type)]
 
     def scan_file(self, rel, mod, src):
         toks = lex(src)
@@ -1106,10 +1134,12 @@ class Crate:
                 p.i += 1
                 name = p.ident()
                 generic = False
+                fparams = []
                 if p.at("<"):
                     generic = True
-                    p.skip_generics()
+                    fparams = self.generic_params(p)
                 item = FnItem(mod, owner, trait, name, p.t, p.i, generic, rel)
+                item.gparams = fparams
                 item.gimpl = gimpl
                 item.targs = targs
                 while not (p.at("{") or p.at(";")):
@@ -1334,7 +1364,11 @@ class Crate:
                 try:
                     ty = p.parse_type()
                     if p.at(";"):
-                        self.assoc[(owner, p.t[save + 1].v)] = ty
+                        if (owner, p.t[save + 1].v) in self.assoc and self.assoc[(owner, p.t[save + 1].v)] != ty:
+                            self.assoc[(owner, p.t[save + 1].v)] = ("ambiguous",)
+                        else:
+                            self.assoc[(owner, p.t[save + 1].v)] = ty
+                        self.assoc3[(owner, trait, p.t[save + 1].v)] = ty
                 except Refuse:
                     pass
                 p.i = save          # skipped below like any other item
@@ -1342,10 +1376,22 @@ class Crate:
                 j = p.i
                 while not (p.at(";") or p.peek().k == "eof"):
                     p.i += 1
-                if [t.v for t in p.t[j + 1:p.i]] in (["core", "::", "time", "::", "Duration"],
-                                                    ["std", "::", "time", "::", "Duration"]):
-                    self.std_duration.add(mod)
+                w = [t.v for t in p.t[j + 1:p.i]]
+                if len(w) == 5 and w[0] in ("core", "std") and w[1] == w[3] == "::" \
+                        and (w[2], w[4]) in (("time", "Duration"), ("cmp", "Ordering")):
+                    self.std_duration.add((mod, w[4]))
                 p.i = j             # skipped below like any other item
+            if p.at("type") and p.peek(1).k == "id" and p.at("=", 2) and gimpl is not None and gimpl["tname"] and not cfg:
+                save = p.i
+                p.i += 3
+                try:
+                    q = Parser(p.t, p.i, gimpl["tparams"])
+                    ty = q.parse_type()
+                    if q.at(";"):
+                        self.assoc_g.setdefault((gimpl["base"], gimpl["tname"], p.t[save + 1].v), []).append((gimpl, ty))
+                except Refuse:
+                    pass
+                p.i = save          # skipped below like any other item
             if p.at("mod"):
                 p.i += 1
                 name = p.ident()
@@ -1495,7 +1541,7 @@ class FnFront:
     def norm(self, t):
         """resolve `Self`, references, arrays-by-reference; reject what is outside the subset"""
         if t[0] in ("tparam", "assoc", "gen"):
-            t = self.gen.subst_type(t, self.item.tsubst, self.item.owner)
+            t = self.gen.subst_type(t, self.item.tsubst, self.item.owner, self.item.trait)
         if t[0] == "self":
             if not self.item.owner or self.item.owner.startswith("<"):
                 raise Refuse("`Self` without a concrete impl type")
@@ -1512,8 +1558,8 @@ class FnFront:
             return ("array", self.norm(t[1]), None)
         if t[0] == "adt":
             a = self.crate.adts.get(t[1])
-            if a is not None and a.get("builtin") and self.item.mod not in self.crate.std_duration:
-                raise Refuse(f"type `{t[1]}` is not `core::time::{t[1]}` in this file (no such `use`)")
+            if a is not None and a.get("builtin") and (self.item.mod, t[1]) not in self.crate.std_duration:
+                raise Refuse(f"type `{t[1]}` is not the std type of that name in this file (no such `use`)")
             if a is None:
                 raise Refuse(f"type `{t[1]}` is not defined in the translated files")
             if a["kind"] in ("opaque", "tstruct"):
@@ -1663,7 +1709,7 @@ class FnFront:
                     for vn, d in a["variants"]:
                         if vn == segs[-1]:
                             e.res = ("variant", d)
-                            return ("adt", en)
+                            return self.norm(("adt", en)) if a.get("builtin") else ("adt", en)
                     raise Refuse(f"unknown variant {en}::{segs[-1]}")
             if len(segs) == 1 and self.crate.adts.get(segs[0], {}).get("kind") == "unit":
                 e.res = ("unit",)
@@ -1726,6 +1772,18 @@ class FnFront:
                 self.int_like(tr_, f"`{op}` amount")
                 return tl
             tl = self.infer(e.l, env, exp)
+            rl = T.res(tl)
+            if op in ("+", "-") and rl is not None and rl[0] == "adt":
+                # `a + b` on a struct: the `add` of the one `impl Add<type of b> for type of a`
+                rr = T.final(self.infer(e.r, env))
+                item = self.gen.resolve_op(rl[1], "Add" if op == "+" else "Sub", "add" if op == "+" else "sub", rr)
+                info = self.gen.fn_info(item)
+                if len(info.params) != 2 or info.mut_self:
+                    raise Refuse(f"operator `{op}`: unexpected signature of {item.rust_path()}")
+                T.unify(rl, info.params[0][1], f"(`{op}`)")
+                T.unify(rr, info.params[1][1], f"(`{op}`)")
+                e.res = ("opfn", info)
+                return info.ret
             tr_ = self.infer(e.r, env, tl if T.res(tl) is not None and T.res(tl)[0] != "tv" else exp)
             t = T.unify(tl, tr_, f"(`{op}`)")
             r = T.res(t)
@@ -2002,6 +2060,8 @@ class FnFront:
             return self.norm(("adt", tn))
         if len(segs) == 1:
             item = self.gen.resolve_fn(None, name, self.item)
+            if item.generic and item.gparams and item.owner is None:
+                item = self.instantiate_generic_fn(item, e, env)
         else:
             owner = self.item.owner if segs[-2] == "Self" else segs[-2]
             if owner in INT_TYPES or owner in NONZERO:
@@ -2024,6 +2084,35 @@ class FnFront:
             T.unify(self.infer(a_, env, pt), pt, f"(argument `{pn}` of {item.rust_path()})")
         e.res = ("fn", info)
         return info.ret
+
+    def instantiate_generic_fn(self, item, e, env):
+        """a call `f(args)` of a free function with type parameters of its own (`fn f<T>(naive: NaiveDateTime,
+        original: T, …)`): each parameter must be the declared type of at least one argument position (`x: T`) and
+        is bound to the type of that argument — a named type; the function is then read at that instantiation
+        (bounds and `where` clauses are not evaluated: rustc has checked them for this call)."""
+        probe = FnItem(item.mod, None, None, item.name, item.toks, item.sig_i, False, item.rel)
+        probe.tsubst = dict.fromkeys(item.gparams)
+        params, has_self, _ret = probe.parse_sig()
+        if has_self or len(params) != len(e.args):
+            raise Refuse(f"call of the generic function {item.name}: argument count")
+        bind = {}
+        for (pat, pt), a_ in zip(params, e.args):
+            if pt[0] == "tparam":
+                at = self.T.final(self.infer(a_, env))
+                if at is None or at[0] != "adt":
+                    raise Refuse(f"generic function {item.name}: type parameter `{pt[1]}` bound to a non-struct type")
+                if bind.get(pt[1], at) != at:
+                    raise Refuse(f"generic function {item.name}: type parameter `{pt[1]}` bound to two types")
+                bind[pt[1]] = at
+        if set(item.gparams) - set(bind):
+            raise Refuse(f"generic function {item.name}: a type parameter is not the type of an argument")
+        key = ("ginst", id(item), tuple(sorted((k_, v[1]) for k_, v in bind.items())))
+        if key not in self.gen.cache:
+            ni = FnItem(item.mod, None, None, item.name, item.toks, item.sig_i, False, item.rel)
+            ni.tsubst = bind
+            ni.ginst = "_".join(lean_ident(bind[g][1]) for g in item.gparams)
+            self.gen.cache[key] = ni
+        return self.gen.cache[key]
 
     def infer_trait_call(self, e, env, exp, trait, name):
         """`Trait::f(args)`: the impl is chosen by `Self`, which is read off the first argument when `f` has a
@@ -2076,6 +2165,10 @@ class FnFront:
                 t = T.unify(tr_, self.infer(e.args[0], env, tr_), f"({name})")
                 e.res = ("euclid", name[:3])
                 return t
+            if name == "cmp" and len(e.args) == 1:
+                T.unify(tr_, self.infer(e.args[0], env, tr_), "(cmp)")
+                e.res = ("cmp",)
+                return self.norm(("adt", "Ordering"))
             if name == "abs" and not e.args:
                 e.res = ("abs",)
                 return tr_
@@ -2105,6 +2198,11 @@ class FnFront:
             if name == "expect" and len(e.args) == 1 and e.args[0].k == "str":
                 e.res = ("unwrap",)
                 return tr_[1]
+            if name == "ok_or" and len(e.args) == 1:
+                x = T.res(exp)
+                te = self.infer(e.args[0], env, x[2] if x is not None and x[0] == "res" else None)
+                e.res = ("ok_or",)
+                return ("res", tr_[1], te)
             if name == "unwrap_or" and len(e.args) == 1:
                 t = T.unify(tr_[1], self.infer(e.args[0], env, tr_[1]), "(unwrap_or)")
                 e.res = ("unwrap_or",)
@@ -2555,6 +2653,8 @@ class FnTrans:
                         return k(V(f"{aa.emb(51)} {lop} {bb.emb(51)}", 50, prop=True))
                     return self.tr(e.r, env, kc2)
                 return self.tr(e.l, env, kc)
+            if getattr(e, "res", None) is not None and e.res[0] == "opfn":
+                return self.tr_list([e.l, e.r], env, lambda vs: self.apply_fn(e.res[1], vs, k, hint))
             t = self.ty(e)
             return self.tr(e.l, env, lambda a: self.tr(e.r, env, lambda b: self.binop(op, a, b, t, k, hint)))
         if kd == "cast":
@@ -2760,6 +2860,18 @@ class FnTrans:
                     return self.res_bind(f"GenRt.edivCk {lit_text(lo)} {lit_text(hi)} {a.emb(100)} {b.emb(100)}", k, hint)
                 return self.res_bind(f"GenRt.emodCk {lit_text(lo)} {a.emb(100)} {b.emb(100)}", k, hint)
             return self.tr(e.recv, env, lambda a: self.tr(e.args[0], env, lambda b: ke(a, b)))
+        if r[0] == "cmp":
+            # `a.cmp(&b)` on integers: `Ordering::Less = -1`, `Equal = 0`, `Greater = 1`
+            def kcmp(a, b):
+                if a.cval is not None and b.cval is not None:
+                    return k(vlit(-1 if a.cval < b.cval else 0 if a.cval == b.cval else 1))
+                return k(V(f"if {a.emb(51)} < {b.emb(51)} then -1 else if {a.emb(51)} = {b.emb(51)} then 0 else 1", 0))
+            return self.tr(e.recv, env, lambda a: self.tr(e.args[0], env, lambda b: kcmp(a, b)))
+        if r[0] == "ok_or":
+            # `opt.ok_or(err)`: the error value is evaluated first-come (eagerly, as an argument), then the choice
+            t = self.ty(e.args[0])
+            return self.tr(e.recv, env, lambda v: self.tr(e.args[0], env, lambda d: k(
+                V(f"GenRt.Result.okOr {v.emb(100)} {self.val(d, t).emb(100)}", 90))))
         if r[0] == "abs":
             t = self.ty(e)
             if not INT_TYPES[t[1]][1]:
@@ -3177,7 +3289,7 @@ class Gen:
         return full
 
     # -- generic impls read at a concrete instantiation
-    def subst_type(self, t, subst, owner):
+    def subst_type(self, t, subst, owner, trait=None):
         """a parsed type with the type parameters (`Tz`), `Self`, associated types (`Tz::Offset`: the `type Offset = …`
         item of the impl for the concrete type) and generic structs (`DateTime<Tz>`) resolved"""
         k = t[0]
@@ -3191,15 +3303,29 @@ class Gen:
             return ("adt", owner)
         if k == "assoc":
             b = self.subst_type(t[1], subst, owner)
+            if b[0] == "adt" and t[1] == ("self",) and trait is not None and (b[1], trait, t[2]) in self.crate.assoc3:
+                # `Self::Err` inside `impl Trait for T`: the `type Err = …;` of that very impl
+                return self.subst_type(self.crate.assoc3[(b[1], trait, t[2])], {}, b[1])
+            ga = self.crate.adts.get(b[1], {}) if b[0] == "adt" else {}
+            if "gbase" in ga and t[1] == ("self",) and trait is not None:
+                # `Self::Err` inside `impl<Tz> Trait for DateTime<Tz>` read at an instantiation: the `type Err = …;`
+                # of the one impl of that trait whose header covers the instantiation
+                hits = [(self.match_impl(gi, ga["gargs"]), ty) for gi, ty in
+                        self.crate.assoc_g.get((ga["gbase"], trait, t[2]), [])]
+                hits = [(bd, ty) for bd, ty in hits if bd is not None]
+                if len(hits) == 1:
+                    return self.subst_type(hits[0][1], hits[0][0], b[1])
             if b[0] != "adt" or (b[1], t[2]) not in self.crate.assoc:
                 raise Refuse(f"associated type `{show_type(b)}::{t[2]}` is not defined in the translated files")
+            if self.crate.assoc[(b[1], t[2])] == ("ambiguous",):
+                raise Refuse(f"associated type `{show_type(b)}::{t[2]}` is defined differently by several impls")
             return self.subst_type(self.crate.assoc[(b[1], t[2])], {}, b[1])
         if k == "gen":
             return self.instantiate_adt(t[1], [self.subst_type(a, subst, owner) for a in t[2]], t[3])
         if k == "opt":
             return ("opt", self.subst_type(t[1], subst, owner))
         if k == "res":
-            return ("res", self.subst_type(t[1], subst, owner), self.subst_type(t[2], subst, owner))
+            return ("res", self.subst_type(t[1], subst, owner, trait), self.subst_type(t[2], subst, owner, trait))
         if k == "tuple":
             return ("tuple", tuple(self.subst_type(x, subst, owner) for x in t[1]))
         if k == "array":
@@ -3587,6 +3713,18 @@ class Gen:
             return self.specialise(x, owner, t)
         raise NotFound(f"`{owner}::{name}` is not defined in the translated files")
 
+    def resolve_op(self, owner, trait, name, rhs):
+        """the function `name` of the one `impl trait<rhs> for owner` (`impl trait for owner` when rhs = owner)"""
+        if rhs is None or rhs[0] != "adt" or owner not in self.crate.adts:
+            raise Refuse(f"operator of `{trait}` on {owner} with a right operand of type {show_type(rhs)}")
+        if "gbase" in self.crate.adts[owner]:
+            return self.resolve_gfn(owner, name, trait, rhs[1])
+        c = [x for x in self.crate.fns.get((owner, trait, name), [])
+             if [show_type(a) for a in x.targs] == [rhs[1]] or (not x.targs and rhs[1] == owner)]
+        if len(c) != 1:
+            raise Refuse(f"no unique `impl {trait}<{rhs[1]}> for {owner}` in the translated files")
+        return c[0]
+
     def specialise(self, item, owner, trait):
         """the default method `item` of `trait`, read with Self = owner"""
         key = ("spec", id(item), owner)
@@ -3610,6 +3748,8 @@ class Gen:
         a = self.crate.adts.get(item.owner) if item.owner and not item.trait else None
         if a is not None and a["kind"] == "struct" and len(a["fields"]) > 1 and item.name in [f for f, _ in a["fields"]]:
             parts.append(item.name + "_fn")      # `T.f` is the projection of the generated structure
+        elif item.ginst:
+            parts.append(item.name + "_" + item.ginst)     # an instantiation of `fn f<T>`: `f_NaiveDateTime`
         else:
             parts.append(item.name)
         return ".".join(parts)
@@ -3703,6 +3843,7 @@ FILES = [
     ("src/datetime/mod.rs", "datetime"),
     ("src/offset/local/tz_info/mod.rs", "tz_info"),
     ("src/offset/local/tz_info/rule.rs", "tz_info_rule"),
+    ("src/round.rs", "round"),
 ]
 
 # (file, impl type | None, function)                      an inherent / free function
@@ -3790,6 +3931,11 @@ TARGETS = (
     + [("src/datetime/mod.rs", inst, f, t) for inst in ["DateTime<Utc>", "DateTime<FixedOffset>"]
        for f, t in [("add", "Add<TimeDelta>"), ("sub", "Sub<TimeDelta>"), ("add", "Add<Duration>"),
                     ("sub", "Sub<Duration>")]]
+    + [("src/round.rs", None, "span_for_digits")]
+    + [("src/round.rs", "NaiveDateTime", f, "DurationRound") for f in
+       ["duration_round", "duration_trunc", "duration_round_up"]]
+    + [("src/round.rs", "DateTime<FixedOffset>", f, "DurationRound") for f in
+       ["duration_round", "duration_trunc", "duration_round_up"]]
 )
 
 
